@@ -30,14 +30,18 @@ Lemma core4_eq : forall h h', core4 h' = core4 h ->
   active h' = active h /\ nmap h' = nmap h /\ pending h' = pending h /\ challenges h' = challenges h.
 Proof. intros h h' E. unfold core4 in E. injection E as E1 E2 E3 E4. auto. Qed.
 
-Lemma core4_sess_get : forall h na, core4 (fst (sess_get h na)) = core4 h.
-Proof. intros h na. unfold sess_get. destruct (alist_get na (sessions h)); reflexivity. Qed.
-
-Lemma is_awaiting_session_core4 : forall s na,
-  core4 (hs (fst (is_awaiting_session s na))) = core4 (hs s) /\ outs (fst (is_awaiting_session s na)) = outs s.
+Lemma core4_sess_get : forall c h na, core4 (fst (sess_get c h na)) = core4 h.
 Proof.
-  intros s na. unfold is_awaiting_session. pose proof (core4_sess_get (hs s) na) as H.
-  destruct (sess_get (hs s) na) as [h se]. cbn [fst] in H. destruct se; cbn [fst with_hs hs outs]; auto.
+  intros c h na. destruct (sess_get_frame c h na) as (A & B & C & D & _). unfold core4. rewrite A, B, C, D. reflexivity.
+Qed.
+Lemma core4_remove_expired_sessions : forall c s, core4 (hs (remove_expired_sessions c s)) = core4 (hs s).
+Proof. intros c s. rewrite remove_expired_sessions_hs. reflexivity. Qed.
+
+Lemma is_awaiting_session_core4 : forall c s na,
+  core4 (hs (fst (is_awaiting_session c s na))) = core4 (hs s) /\ outs (fst (is_awaiting_session c s na)) = outs s.
+Proof.
+  intros c s na. unfold is_awaiting_session. pose proof (core4_sess_get c (hs s) na) as H.
+  destruct (sess_get c (hs s) na) as [h se]. cbn [fst] in H. destruct se; cbn [fst with_hs hs outs]; auto.
 Qed.
 
 (* ------------------------------------------------------------------------------------------ *)
@@ -50,6 +54,15 @@ Fixpoint wl (c : config) (l : list rcall) : nat :=
 Definition wpl (c : config) (l : list preq) : nat := length l * wq c.
 Definition weight (c : config) (h : hstate) : nat :=
   asum (wl c) (active h) + asum (wpl c) (pending h) + length (challenges h).
+
+(* the measure does not depend on the clock of the environment *)
+Lemma wl_with_clock : forall c t l, wl (with_clock c t) l = wl c l.
+Proof. intros c t. induction l as [|r l IH]; cbn [wl]; [reflexivity|]. rewrite IH. reflexivity. Qed.
+Lemma weight_with_clock : forall c t h, weight (with_clock c t) h = weight c h.
+Proof.
+  intros c t h. unfold weight. f_equal. f_equal.
+  induction (active h) as [|[k v] l IH]; cbn [asum]; [reflexivity|]. rewrite IH, wl_with_clock. reflexivity.
+Qed.
 
 Lemma weight_core : forall c h h', core4 h' = core4 h -> weight c h' = weight c h.
 Proof. intros c h h' E. destruct (core4_eq _ _ E) as (E1 & _ & E3 & E4). unfold weight. rewrite E1, E3, E4. reflexivity. Qed.
@@ -276,20 +289,20 @@ Proof.
   intros c s ct ext rid body now. unfold send_request.
   destruct (existsb (N.eqb (c_addr ct)) (cfg_listen c)); [left; split; reflexivity|]. right.
   assert (H1 : core4 (hs (fst (if has_challenge (hs s) (c_naddr ct) then (s, true)
-                               else is_awaiting_session s (c_naddr ct)))) = core4 (hs s) /\
+                               else is_awaiting_session c s (c_naddr ct)))) = core4 (hs s) /\
                outs (fst (if has_challenge (hs s) (c_naddr ct) then (s, true)
-                               else is_awaiting_session s (c_naddr ct))) = outs s).
+                               else is_awaiting_session c s (c_naddr ct))) = outs s).
   { destruct (has_challenge (hs s) (c_naddr ct)); [split; reflexivity|apply is_awaiting_session_core4]. }
-  destruct (if has_challenge (hs s) (c_naddr ct) then (s, true) else is_awaiting_session s (c_naddr ct))
+  destruct (if has_challenge (hs s) (c_naddr ct) then (s, true) else is_awaiting_session c s (c_naddr ct))
     as [s1 aw]. cbn [fst] in H1. destruct H1 as [H1 O1].
   destruct aw; cbn [fst snd].
   - left. split; [reflexivity|]. exists (hs s1). cbn [with_hs hs outs]. auto.
   - right. split.
-    { destruct (sess_get (hs s1) (c_naddr ct)) as [h2 [se|]].
+    { destruct (sess_get c (hs s1) (c_naddr ct)) as [h2 [se|]].
       - destruct (encrypt_message c (with_hs s1 h2) (c_naddr ct) se (MReq rid body)) as [[s3 se'] p]. reflexivity.
       - destruct (pop_pk (dr (with_hs s1 h2))) as [[[[cn r] aad] x4] d']. reflexivity. }
-    pose proof (core4_sess_get (hs s1) (c_naddr ct)) as H4.
-    destruct (sess_get (hs s1) (c_naddr ct)) as [h2 se]. cbn [fst] in H4.
+    pose proof (core4_sess_get c (hs s1) (c_naddr ct)) as H4.
+    destruct (sess_get c (hs s1) (c_naddr ct)) as [h2 se]. cbn [fst] in H4.
     destruct se as [se|].
     + pose proof (encrypt_message_st c (with_hs s1 h2) (c_naddr ct) se (MReq rid body)) as H5.
       destruct (encrypt_message c (with_hs s1 h2) (c_naddr ct) se (MReq rid body)) as [[s3 se'] p].
@@ -416,8 +429,12 @@ Lemma fail_session_facts : forall c s na err rm,
   (forall x, elive x (fail_session c s na err rm) = elive x s).
 Proof.
   intros c s na err rm. unfold fail_session.
-  set (s1 := if rm then with_hs s (sess_remove (hs s) na) else s).
-  assert (H1 : core4 (hs s1) = core4 (hs s) /\ outs s1 = outs s). { subst s1. destruct rm; split; reflexivity. }
+  set (s1 := if rm then let s0 := remove_expired_sessions c s in with_hs s0 (sess_remove (hs s0) na) else s).
+  assert (H1 : core4 (hs s1) = core4 (hs s) /\ forall x, fmen x (outs s1) = fmen x (outs s)).
+  { subst s1. destruct rm; [|split; reflexivity]. cbv zeta. cbn [with_hs hs outs]. split.
+    - rewrite <- (core4_remove_expired_sessions c s). reflexivity.
+    - intros x. destruct (remove_expired_sessions_outs c s) as [X|[ks X]]; rewrite X; [reflexivity|].
+      rewrite fmen_app. cbn [fmen is_fail]. lia. }
   clearbody s1. destruct H1 as [C1 O1].
   set (s2 := match alist_get na (pending (hs s1)) with Some l => _ | None => s1 end).
   assert (H2 : weight c (hs s2) <= weight c (hs s1) /\ (forall B, dl_below B (hs s1) -> dl_below B (hs s2)) /\
@@ -438,7 +455,7 @@ Proof.
     apply D2. eapply dl_below_core; [exact C1|exact H].
   - intros x. rewrite A2. unfold elive at 1. cbn [with_hs hs outs].
     pose proof (eocc_ar_remove_requests x _ _ _ _ E). specialize (L2 x). unfold elive in L2 at 1.
-    assert (X : elive x s1 = elive x s). { unfold elive. rewrite O1, (eocc_core x _ _ C1). reflexivity. }
+    assert (X : elive x s1 = elive x s). { unfold elive. rewrite (O1 x), (eocc_core x _ _ C1). reflexivity. }
     lia.
 Qed.
 
@@ -600,6 +617,26 @@ Proof.
   apply filter_In. split; [exact H|]. cbn [snd]. apply N.eqb_refl.
 Qed.
 
+(* the timers run under their own clock *)
+Lemma fire_group_facts_wc : forall c t d ft g s,
+  weight c (hs (fire_group (with_clock c t) s g d ft)) <= weight c (hs s) /\
+  (forall B, dl_below B (hs s) -> (ft + cfg_timeout c < B)%N -> dl_below B (hs (fire_group (with_clock c t) s g d ft))) /\
+  (forall y, elive y (fire_group (with_clock c t) s g d ft) = elive y s).
+Proof.
+  intros c t d ft g s. pose proof (fire_group_facts (with_clock c t) d ft g s) as H.
+  rewrite !weight_with_clock in H. exact H.
+Qed.
+
+Lemma fire_challenge_facts_wc : forall c t s na now,
+  weight c (hs (fire_challenge (with_clock c t) s na now)) <= weight c (hs s) /\
+  (forall ch d, In (na, ch, d) (challenges (hs s)) -> weight c (hs (fire_challenge (with_clock c t) s na now)) < weight c (hs s)) /\
+  (forall B, dl_below B (hs s) -> (now + cfg_timeout c < B)%N -> dl_below B (hs (fire_challenge (with_clock c t) s na now))) /\
+  (forall x, elive x (fire_challenge (with_clock c t) s na now) = elive x s).
+Proof.
+  intros c t s na now. pose proof (fire_challenge_facts (with_clock c t) s na now) as H.
+  rewrite !weight_with_clock in H. exact H.
+Qed.
+
 (* the first member of a group fires (nothing has touched its timer yet) *)
 Lemma fire_group_strict : forall c d ft x t s,
   Sync (hs s) -> In (fst x, snd x, d) (nmap (hs s)) ->
@@ -614,14 +651,22 @@ Proof.
   apply cM_uniq_get; [apply U|]. eapply cM_in. exact Hin.
 Qed.
 
+Lemma fire_group_strict_wc : forall c t d ft x g s,
+  Sync (hs s) -> In (fst x, snd x, d) (nmap (hs s)) ->
+  weight c (hs (fire_group (with_clock c t) s (x :: g) d ft)) < weight c (hs s).
+Proof.
+  intros c t d ft x g s S Hin. pose proof (fire_group_strict (with_clock c t) d ft x g s S Hin) as H.
+  rewrite !weight_with_clock in H. exact H.
+Qed.
+
 (* one round of fire_due on the request side *)
 Definition fire_req_group (c : config) (s : st) (d now : N) : st :=
   match group_of d (nmap (hs s)) with
   | _ :: _ :: _ =>
     let (rev_order, d') := pop_rev (dr s) in
-    fire_group c {| hs := hs s; dr := d'; outs := outs s |}
+    fire_group (with_clock c (fire_time c d now)) {| hs := hs s; dr := d'; outs := outs s |}
       (if rev_order then rev (group_of d (nmap (hs s))) else group_of d (nmap (hs s))) d (fire_time c d now)
-  | _ => fire_group c s (group_of d (nmap (hs s))) d (fire_time c d now)
+  | _ => fire_group (with_clock c (fire_time c d now)) s (group_of d (nmap (hs s))) d (fire_time c d now)
   end.
 
 Lemma fire_req_group_facts : forall c s d now,
@@ -630,9 +675,9 @@ Lemma fire_req_group_facts : forall c s d now,
   (forall y, elive y (fire_req_group c s d now) = elive y s).
 Proof.
   intros c s d now. unfold fire_req_group.
-  destruct (group_of d (nmap (hs s))) as [|x [|y g]]; try apply fire_group_facts.
+  destruct (group_of d (nmap (hs s))) as [|x [|y g]]; try apply fire_group_facts_wc.
   destruct (pop_rev (dr s)) as [ro d'].
-  apply (fire_group_facts c d (fire_time c d now) (if ro then rev (x :: y :: g) else x :: y :: g)
+  apply (fire_group_facts_wc c (fire_time c d now) d (fire_time c d now) (if ro then rev (x :: y :: g) else x :: y :: g)
            {| hs := hs s; dr := d'; outs := outs s |}).
 Qed.
 
@@ -645,13 +690,15 @@ Proof.
   assert (M : forall x, In x (group_of d (nmap (hs s))) -> In (fst x, snd x, d) (nmap (hs s))).
   { intros [n0 na0] H0. apply group_of_in3. exact H0. }
   destruct (group_of d (nmap (hs s))) as [|x [|y g]] eqn:EG; [destruct Hg| |].
-  - apply fire_group_strict; [exact S|]. apply M. left. reflexivity.
+  - apply fire_group_strict_wc; [exact S|]. apply M. left. reflexivity.
   - destruct (pop_rev (dr s)) as [ro d'].
     assert (X : forall G, G <> [] -> (forall z, In z G -> In z (x :: y :: g)) ->
-              weight c (hs (fire_group c {| hs := hs s; dr := d'; outs := outs s |} G d (fire_time c d now)))
+              weight c (hs (fire_group (with_clock c (fire_time c d now)) {| hs := hs s; dr := d'; outs := outs s |} G d
+                              (fire_time c d now)))
               < weight c (hs s)).
     { intros G Hne Hsub. destruct G as [|z G']; [congruence|].
-      apply (fire_group_strict c d (fire_time c d now) z G' {| hs := hs s; dr := d'; outs := outs s |}); [exact S|].
+      apply (fire_group_strict_wc c (fire_time c d now) d (fire_time c d now) z G'
+               {| hs := hs s; dr := d'; outs := outs s |}); [exact S|].
       cbn [hs]. apply M. apply Hsub. left. reflexivity. }
     destruct ro; apply X.
     + intros E. apply (f_equal (@length _)) in E. rewrite rev_length in E. discriminate.
@@ -667,9 +714,10 @@ Definition fire_next (c : config) (s : st) (now : N) : option st :=
   match min_deadline_nmap (nmap (hs s)) None, min_deadline_ch (challenges (hs s)) None with
   | Some (_, _, d), Some (cna, _, cd) =>
     if N.ltb d now && (negb (N.ltb cd now) || N.leb d cd) then Some (fire_req_group c s d now)
-    else if N.ltb cd now then Some (fire_challenge c s cna (fire_time c cd now)) else None
+    else if N.ltb cd now then Some (fire_challenge (with_clock c (fire_time c cd now)) s cna (fire_time c cd now)) else None
   | Some (_, _, d), None => if N.ltb d now then Some (fire_req_group c s d now) else None
-  | None, Some (cna, _, cd) => if N.ltb cd now then Some (fire_challenge c s cna (fire_time c cd now)) else None
+  | None, Some (cna, _, cd) =>
+    if N.ltb cd now then Some (fire_challenge (with_clock c (fire_time c cd now)) s cna (fire_time c cd now)) else None
   | None, None => None
   end.
 
@@ -711,7 +759,8 @@ Qed.
 (* what fires is armed and due *)
 Lemma fire_next_some : forall c s now s1, fire_next c s now = Some s1 ->
   (exists n na d, In (n, na, d) (nmap (hs s)) /\ (d < now)%N /\ s1 = fire_req_group c s d now) \/
-  (exists na ch d, In (na, ch, d) (challenges (hs s)) /\ (d < now)%N /\ s1 = fire_challenge c s na (fire_time c d now)).
+  (exists na ch d, In (na, ch, d) (challenges (hs s)) /\ (d < now)%N /\
+     s1 = fire_challenge (with_clock c (fire_time c d now)) s na (fire_time c d now)).
 Proof.
   intros c s now s1 H. unfold fire_next in H.
   destruct (min_deadline_nmap (nmap (hs s)) None) as [[[rn ra] rd]|] eqn:ER;
@@ -768,7 +817,7 @@ Proof.
     split; [exact A1|split; [|split; [|exact A3]]].
     + intros S. eapply fire_req_group_strict; eauto.
     + intros B LB D. apply A2; [exact D|]. pose proof (fire_time_le c d now L). unfold next_bound in LB. lia.
-  - destruct (fire_challenge_facts c s na (fire_time c d now)) as (A1 & A2 & A3 & A4).
+  - destruct (fire_challenge_facts_wc c (fire_time c d now) s na (fire_time c d now)) as (A1 & A2 & A3 & A4).
     split; [exact A1|split; [|split; [|exact A4]]].
     + intros _. eapply A2; eauto.
     + intros B LB D. apply A3; [exact D|]. pose proof (fire_time_le c d now L). unfold next_bound in LB. lia.
@@ -797,7 +846,7 @@ Definition DrainInv (c : config) (h : hstate) : Prop := Sync h /\ NoOrph c h /\ 
 Theorem nothing_armed_nothing_held : forall c h, DrainInv c h -> nmap h = [] -> challenges h = [] ->
   active h = [] /\ pending h = [].
 Proof.
-  intros c h ((K & S & U) & (_ & _ & C) & ((AW & _) & _)) Hn Hc.
+  intros c h ((K & S & U) & (_ & _ & C & _) & ((AW & _) & _)) Hn Hc.
   assert (Ha : active h = []).
   { destruct (active h) as [|[na l] t] eqn:Ea; [reflexivity|exfalso].
     destruct AW as [_ AW]. inversion AW as [|? ? [Hne _] _]; subst. cbn [snd] in Hne.
@@ -847,9 +896,22 @@ Qed.
 
 Lemma tick_unfold : forall c h now d,
   step c h EvTick now d =
-  (hs (fire_due c {| hs := h; dr := d; outs := [] |} now TICK_FUEL),
-   outs (fire_due c {| hs := h; dr := d; outs := [] |} now TICK_FUEL)).
+  (hs (fire_due (with_clock c now) {| hs := h; dr := d; outs := [] |} now TICK_FUEL),
+   outs (fire_due (with_clock c now) {| hs := h; dr := d; outs := [] |} now TICK_FUEL)).
 Proof. reflexivity. Qed.
+
+(* a tick at time [now] fires the due timers under the clock [now]; stated for an arbitrary fuel *)
+Lemma fire_due_no_wc : forall c t E now fuel s,
+  NOC c None E (hs s) -> NOC c None E (hs (fire_due (with_clock c t) s now fuel)).
+Proof. intros c t. exact (fire_due_no (with_clock c t)). Qed.
+Lemma fire_due_facts_wc : forall c t now fuel s,
+  weight c (hs (fire_due (with_clock c t) s now fuel)) <= weight c (hs s) /\
+  (forall B, (next_bound c now <= B)%N -> dl_below B (hs s) -> dl_below B (hs (fire_due (with_clock c t) s now fuel))) /\
+  (forall y, elive y (fire_due (with_clock c t) s now fuel) = elive y s).
+Proof.
+  intros c t now fuel s. pose proof (fire_due_facts (with_clock c t) now fuel s) as H.
+  rewrite !weight_with_clock in H. exact H.
+Qed.
 
 Lemma TICK_FUEL_S : TICK_FUEL = S 63.
 Proof. reflexivity. Qed.
@@ -864,28 +926,36 @@ Proof.
   - destruct (fire_next_none c s now E D) as [Hn Hc]. rewrite (unarmed_weight_zero c (hs s) I Hn Hc). lia.
 Qed.
 
+Lemma fire_due_progress_wc : forall c t now f s,
+  DrainInv c (hs s) -> dl_below now (hs s) ->
+  weight c (hs (fire_due (with_clock c t) s now (S f))) <= pred (weight c (hs s)).
+Proof.
+  intros c t now f s I D. pose proof (fire_due_progress (with_clock c t) now f s I D) as H.
+  rewrite !weight_with_clock in H. exact H.
+Qed.
+
 (* drain_step: a tick later than every armed deadline preserves the invariants, leaves every deadline
    below [next_bound], strictly decreases the weight unless it is zero already, and reports every
    application request it drops *)
 Lemma tick_fst : forall c h now d,
-  fst (step c h EvTick now d) = hs (fire_due c {| hs := h; dr := d; outs := [] |} now TICK_FUEL).
+  fst (step c h EvTick now d) = hs (fire_due (with_clock c now) {| hs := h; dr := d; outs := [] |} now TICK_FUEL).
 Proof. reflexivity. Qed.
 Lemma tick_snd : forall c h now d,
-  snd (step c h EvTick now d) = outs (fire_due c {| hs := h; dr := d; outs := [] |} now TICK_FUEL).
+  snd (step c h EvTick now d) = outs (fire_due (with_clock c now) {| hs := h; dr := d; outs := [] |} now TICK_FUEL).
 Proof. reflexivity. Qed.
 
 Lemma tick_inv : forall c h now d,
   DrainInv c h -> fresh_draws h d -> not_exhausted c h EvTick now d -> DrainInv c (fst (step c h EvTick now d)).
 Proof.
   intros c h now d (SY & NO & EI) F NE. split; [apply step_sync; assumption|]. rewrite tick_fst.
-  split; [apply (fire_due_no c none now TICK_FUEL {| hs := h; dr := d; outs := [] |}); exact NO
-         |apply (fire_due_inv c now TICK_FUEL {| hs := h; dr := d; outs := [] |}); exact EI].
+  split; [apply (fire_due_no_wc c now none now TICK_FUEL {| hs := h; dr := d; outs := [] |}); exact NO
+         |apply (fire_due_inv (with_clock c now) now TICK_FUEL {| hs := h; dr := d; outs := [] |}); exact EI].
 Qed.
 
 Lemma tick_dl : forall c h now d, dl_below now h -> dl_below (next_bound c now) (fst (step c h EvTick now d)).
 Proof.
   intros c h now d D. rewrite tick_fst.
-  apply (proj1 (proj2 (fire_due_facts c now TICK_FUEL {| hs := h; dr := d; outs := [] |})) (next_bound c now)); [lia|].
+  apply (proj1 (proj2 (fire_due_facts_wc c now now TICK_FUEL {| hs := h; dr := d; outs := [] |})) (next_bound c now)); [lia|].
   apply (dl_below_mono now); [unfold next_bound; lia|exact D].
 Qed.
 
@@ -893,7 +963,7 @@ Lemma tick_weight : forall c h now d, DrainInv c h -> dl_below now h ->
   weight c (fst (step c h EvTick now d)) <= pred (weight c h).
 Proof.
   intros c h now d I D. rewrite tick_fst, TICK_FUEL_S.
-  apply (fire_due_progress c now 63 {| hs := h; dr := d; outs := [] |}); assumption.
+  apply (fire_due_progress_wc c now now 63 {| hs := h; dr := d; outs := [] |}); assumption.
 Qed.
 
 (* (stated for an arbitrary fuel: with the constant TICK_FUEL in the statement the kernel unfolds
@@ -931,7 +1001,7 @@ Proof.
   intros x. induction o as [|e t IH]; cbn [fmen]; intros H; [lia|].
   destruct (is_fail x e) eqn:E.
   - destruct IH as (err & Hin); [lia|]. exists err. right. exact Hin.
-  - destruct e as [[| | | |y err|]|]; cbn [is_fail] in E; try discriminate.
+  - destruct e as [[| | | |y err| |]|]; cbn [is_fail] in E; try discriminate.
     unfold eqn in E. destruct (N.eqb y x) eqn:E2; [|discriminate]. apply N.eqb_eq in E2. subst y.
     exists err. left. reflexivity.
 Qed.
